@@ -58,7 +58,7 @@ Section Main.
         - now destruct (chan_fill_ok F V 0%nat H0 s I) as (_ & _ & ? & _).
         - destruct (chan_consume_ok F V 0%nat H0 s k I Ho) as (_ & _ & _ & ->). exact Logic.I.
         - (* a seek never answers with channel slices *)
-          destruct (chan_seek_ok F V 0%nat H0 s sk I Ho) as (_ & (_ & _ & C)).
+          destruct (chan_seek_ok F V 0%nat H0 s sk I Ho) as (_ & (_ & _ & C) & _).
           cbn [abs_c e_op e_out] in C. unfold chan_shape. cbn [snd].
           destruct (snd (chan_seek F s sk)); try exact Logic.I.
           cbn [abs_out_data chan_of] in C. destruct (sample_target F 1 sk); contradiction. }
@@ -116,6 +116,63 @@ Section Main.
     split; [exact H1|]. split; [exact H2|]. split.
     - eapply refines_seeks_land; eauto.
     - eapply refines_failed_seeks_safe; eauto.
+  Qed.
+
+  (* a sample-based seek beyond the end of a seekable stream fails and leaves the reader at the end:
+     no data is delivered and every polling call signals end of stream until the next seek *)
+  Theorem c06_samples_beyond_end ops :
+    Forall sop_ok (snd (sample_run F ops)) -> f_seekable F = true ->
+    forall pre r s o post, snd (sample_run F ops) = pre ++ (r, SSeek s, o) :: post ->
+      total_frames F < s ->
+      (exists e, o = OErr e) /\
+      (seek_free (map (abs_s F) post) ->
+         delivered (pcm F) (map (abs_s F) post) = [] /\
+         Forall (fun x => polls x = true -> eos x = true) (map (abs_s F) post)).
+  Proof.
+    intros Hok Hsk pre r s o post E Hgt.
+    destruct (c06_samples ops Hok) as (Hc & Hch & _ & Hfs).
+    pose proof (run_invs (sample_step F) (SInv F) sop_ok (abs_s F) (pcm F) (sample_step_ok F V) ops
+                  (sample_new F) (sinv_new F) Hok) as Hinv.
+    unfold sample_run in *. rewrite E in *. apply Forall_app in Hinv as (_ & Hinv).
+    inversion Hinv as [|? ? (I & Eo) _]; subst. cbn [fst snd sample_step] in I, Eo.
+    apply Forall_app in Hok as (_ & Hok). inversion Hok as [|? ? Hs _]; subst. cbn [sop_ok] in Hs.
+    destruct (sample_seek_ok F V r s I Hs) as (_ & _ & Hend). specialize (Hend Hsk Hgt).
+    rewrite map_app in Hfs. cbn [map] in Hfs.
+    assert (Hop : e_op (abs_s F (r, SSeek s, snd (sample_seek F r s))) = ASeek None).
+    { cbn [abs_s e_op]. unfold sample_target. rewrite Hsk.
+      replace (s <=? total_frames F) with false by (symmetry; apply N.leb_gt; lia). reflexivity. }
+    destruct (Hfs _ _ _ eq_refl Hop) as (Hout & _ & Hafter).
+    split.
+    - cbn [abs_s e_out] in Hout. destruct (snd (sample_seek F r s)); try discriminate Hout. eauto.
+    - apply Hafter. cbn [abs_s e_pos' sample_step]. exact Hend.
+  Qed.
+
+  Theorem c06_channels_beyond_end ops c :
+    (c < N.to_nat (f_channels F))%nat ->
+    Forall cop_ok (snd (chan_run F ops)) -> f_seekable F = true ->
+    forall pre r s o post, snd (chan_run F ops) = pre ++ (r, CSeek s, o) :: post ->
+      total_frames F < s ->
+      (exists e, o = OErr e) /\
+      (seek_free (map (abs_c F c) post) ->
+         delivered (chan_pcm F c) (map (abs_c F c) post) = [] /\
+         Forall (fun x => polls x = true -> eos x = true) (map (abs_c F c) post)).
+  Proof.
+    intros Hc Hok Hsk pre r s o post E Hgt.
+    destruct (c06_channels ops c Hc Hok) as (Hcu & Hch & _ & Hfs).
+    pose proof (run_invs (chan_step F) (CInv F) cop_ok (abs_c F c) (chan_pcm F c) (chan_step_ok F V c Hc) ops
+                  (chan_new F) (cinv_new F c Hc) Hok) as Hinv.
+    unfold chan_run in *. rewrite E in *. apply Forall_app in Hinv as (_ & Hinv).
+    inversion Hinv as [|? ? (I & Eo) _]; subst. cbn [fst snd chan_step] in I, Eo.
+    apply Forall_app in Hok as (_ & Hok). inversion Hok as [|? ? Hs _]; subst. cbn [cop_ok] in Hs.
+    destruct (chan_seek_ok F V c Hc r s I Hs) as (_ & _ & Hend). specialize (Hend Hsk Hgt).
+    rewrite map_app in Hfs. cbn [map] in Hfs.
+    assert (Hop : e_op (abs_c F c (r, CSeek s, snd (chan_seek F r s))) = ASeek None).
+    { cbn [abs_c e_op]. unfold sample_target. rewrite Hsk.
+      replace (s <=? total_frames F) with false by (symmetry; apply N.leb_gt; lia). reflexivity. }
+    destruct (Hfs _ _ _ eq_refl Hop) as (Hout & _ & Hafter).
+    split.
+    - cbn [abs_c e_out] in Hout. destruct (snd (chan_seek F r s)); try discriminate Hout. eauto.
+    - apply Hafter. cbn [abs_c e_pos' chan_step]. exact Hend.
   Qed.
 
   (* the invariants, as DESIGN states them: buffered data ++ data from the decoder position on
